@@ -449,3 +449,117 @@ pub fn run(ctx: &mut Ctx) {
         }
     }
 }
+
+/// C14 (establishment part): outbound connection attempts that complete before, at and after the
+/// establishment timeout `E`, or never, for literal and host-name destinations over HTTP/1.1 and
+/// HTTP/2: which response the client gets, and whether the attempt was abandoned (dropped) or
+/// allowed to complete.
+pub fn run_establish(ctx: &mut Ctx) {
+    quiet_panics();
+    let dests = ["93.184.216.34:80", "[2001:db8::1]:443", "example.org:443", "localhost:22", "a-b.example:65535", "10.1.2.3:8443"];
+    let es: &[u64] = if ctx.thorough() { &[1, 250, 1000, 30_000] } else { &[250, 30_000] };
+    for &e in es {
+        let core = make_core(&Authn::None, e);
+        let delays = [0u64, 1, e / 2, e.saturating_sub(1), e, e + 1, 2 * e, 10 * e + 5];
+        for proto in ["h1", "h2"] {
+            for round in 0..(if ctx.thorough() { 12 } else { 6 }) {
+                let n = if proto == "h1" { 1 } else { 1 + (round % 3) as usize };
+                let mut script = FwdScript::default();
+                let mut reqs: Vec<(String, u64)> = vec![];
+                for k in 0..n {
+                    let d = dests[(round as usize + k * 2 + ctx.rng.below(2) as usize) % dests.len()].to_string();
+                    if reqs.iter().any(|(x, _)| *x == d) {
+                        continue;
+                    }
+                    let delay = *ctx.rng.pick(&delays);
+                    let key = match d.parse::<std::net::SocketAddr>() {
+                        Ok(sa) => sa.to_string(),
+                        Err(_) => d.clone(),
+                    };
+                    script.connect.insert(key, ConnectScript::DelayedOk { ms: delay });
+                    reqs.push((d, delay));
+                }
+                verif::hooks::reset();
+                verif::hooks::STATE.lock().unwrap().forwarder = Some(script.clone());
+                let rt = tokio::runtime::Builder::new_current_thread().enable_all().start_paused(true).build().unwrap();
+                let linger = 12 * e + 1000;
+                let mut resp_toks: Vec<String> = vec![];
+                if proto == "h1" {
+                    let raw = format!("CONNECT {} HTTP/1.1\r\nHost: {}\r\nUser-Agent: verif\r\n\r\n", reqs[0].0, reqs[0].0).into_bytes();
+                    let out = rt.block_on(async {
+                        tokio::time::timeout(std::time::Duration::from_millis(linger + 60_000), h1_session(&core, "localhost", None, raw, linger)).await
+                    });
+                    match out {
+                        Ok(bytes) => {
+                            let (status, headers, _) = parse_resp_h1(&bytes);
+                            resp_toks.push(resp_tok(status, &headers));
+                        }
+                        Err(_) => {
+                            ctx.oracle_failure("session_hung", &format!("h1 CONNECT {} (attempt completes after {} ms, E = {} ms)", reqs[0].0, reqs[0].1, e));
+                            continue;
+                        }
+                    }
+                } else {
+                    let vreqs: Vec<VReq> = reqs
+                        .iter()
+                        .map(|(d, _)| VReq { method: "CONNECT".into(), target: d.clone(), headers: vec![("user-agent".to_string(), b"verif".to_vec())], body: vec![] })
+                        .collect();
+                    let out = rt.block_on(async {
+                        tokio::time::timeout(std::time::Duration::from_millis(linger + 60_000), h2_session(&core, "localhost", None, vreqs, 10, linger)).await
+                    });
+                    match out {
+                        Ok(resps) => {
+                            for r in resps {
+                                let hm: HashMap<String, String> = r.headers.iter().cloned().collect();
+                                resp_toks.push(resp_tok(r.status, &hm));
+                            }
+                        }
+                        Err(_) => {
+                            ctx.oracle_failure("session_hung", &format!("h2 session with {:?}, E = {} ms", reqs, e));
+                            continue;
+                        }
+                    }
+                }
+                drop(rt);
+                let calls = verif::hooks::STATE.lock().unwrap().forwarder_calls.clone();
+                for (i, (d, delay)) in reqs.iter().enumerate() {
+                    let key = match d.parse::<std::net::SocketAddr>() {
+                        Ok(sa) => sa.to_string(),
+                        Err(_) => d.clone(),
+                    };
+                    let completed = calls.iter().any(|c| *c == format!("tcp_connect_completed {}", key));
+                    let abandoned = calls.iter().any(|c| *c == format!("tcp_connect_abandoned {}", key));
+                    let what = format!(
+                        "{} CONNECT {} with establishment timeout {} ms, the attempt would complete after {} ms: client got [{}]",
+                        proto, d, e, delay, resp_toks.get(i).cloned().unwrap_or_default()
+                    );
+                    if *delay > e && (completed || !abandoned) {
+                        ctx.oracle_failure(
+                            "attempt_not_abandoned",
+                            &format!("{}; the attempt was {} (it must be dropped at the timeout, releasing its socket and task)", what, if completed { "allowed to complete" } else { "neither completed nor dropped" }),
+                        );
+                    }
+                    if *delay < e && (!completed || abandoned) {
+                        ctx.oracle_failure("attempt_abandoned_early", &format!("{}; the attempt was dropped before the timeout", what));
+                    }
+                    ctx.stat(if *delay > e { "attempts_over_the_timeout" } else if *delay == e { "attempts_at_the_timeout" } else { "attempts_in_time" });
+                    ctx.stat(if d.parse::<std::net::SocketAddr>().is_ok() { "literal_destinations" } else { "host_name_destinations" });
+                }
+                let mut q = format!("c10 session {} none - {} {}", proto, e, reqs.len());
+                for (d, delay) in &reqs {
+                    let a = d.parse::<http::uri::Authority>().unwrap();
+                    q.push_str(&format!(
+                        " C {} {} {} absent delay:{} 0 o 0",
+                        hex(d.as_bytes()),
+                        a.as_str().parse::<std::net::SocketAddr>().is_ok() as u8,
+                        a.port_u16().map(|p| p.to_string()).unwrap_or_else(|| "-".into()),
+                        delay
+                    ));
+                }
+                let egress = vec!["tcp"; reqs.len()];
+                ctx.emit(&q, &format!("{} | {}", resp_toks.join(";"), egress.join(",")));
+                ctx.stat(&format!("sessions_{}", proto));
+            }
+        }
+    }
+}
